@@ -249,7 +249,10 @@ func (sf *schemafier) schemafy(attr *expr.AttributeExpr, noref ...bool) *openapi
 		s.Type = openapi.Object
 		// OpenAPI lets you define dictionaries where the keys are strings.
 		// See https://swagger.io/docs/specification/data-models/dictionaries/.
-		if t.KeyType.Type == expr.String && t.ElemType.Type != expr.Any {
+		// The keys of a JSON object are strings whatever the type of the map
+		// keys is (the generated code converts them): the elements can be
+		// described in all cases.
+		if t.KeyType.Type != expr.Any && t.ElemType.Type != expr.Any {
 			// Use free-form objects when elements are of type "Any"
 			s.AdditionalProperties = sf.schemafy(t.ElemType)
 		} else if t.KeyType.Type != expr.Any {
